@@ -659,6 +659,9 @@ func (g *Gen) sabotage(ops *[]AOp, pending map[string][]string) {
 	}
 	bad.Normalize()
 	pos := g.pick(len(*ops) + 1)
+	if bad.Op == "wait" {
+		pos = 0 // its expected rows were built from the state before the transaction
+	}
 	out := append([]AOp{}, (*ops)[:pos]...)
 	out = append(out, bad)
 	out = append(out, (*ops)[pos:]...)
